@@ -39,7 +39,7 @@ ASSUMPTIONS = [
 ]
 BUDGET = {"quick": 40, "thorough": 420}
 NCASES = {"quick": 2500, "thorough": 60000}
-FLOORS = {'quick': {'case_held': 900, 'nontrivial_held': 500}, 'thorough': {'case_held': 9000, 'nontrivial_held': 5000, 'suite:apply_geometry_lowering:held': 20}}
+FLOORS = {'quick': {'case_held': 900, 'nontrivial_held': 500, 'two_mesh_held': 60}, 'thorough': {'case_held': 9000, 'nontrivial_held': 5000, 'two_mesh_held': 1200, 'suite:apply_geometry_lowering:held': 20}}
 
 CELLQ = ["SpatialCoordinate", "CellCoordinate", "Jacobian", "JacobianInverse", "JacobianDeterminant", "CellVolume", "Circumradius",
          "CellDiameter", "MinCellEdgeLength", "MaxCellEdgeLength", "CellOrigin", "CellVertices", "CellEdgeVectors", "CellNormal",
@@ -70,6 +70,8 @@ def case(ctx, i, rng):
     except Exception as ex:
         ctx.count("build_rejected")
         return
+    if rng.random() < 0.15:
+        return two_meshes(ctx, rng, cell, gdim, tdim, itype, names, name, q, mesh)
     wrapper = rng.choice(["bare", "bare", "component", "product"])
     e = q
     try:
@@ -105,6 +107,49 @@ def case(ctx, i, rng):
             pass
     elif verdict == "rejected":
         ctx.covered("rejected_quantities", name)
+
+
+def two_meshes(ctx, rng, cell, gdim, tdim, itype, names, name, q, mesh):
+    """One lowering call on quantities of two different meshes with the same cell type: each lowered
+    component must read the data of its own mesh (the worlds know their mesh, foreign terminals have no value)."""
+    gdim2 = rng.choice([g for (c, g) in CELLS if c == cell])
+    mesh2 = E.mesh_for(cell, gdim2)
+    name2 = name if rng.random() < 0.6 else rng.choice(names)
+    try:
+        q2 = getattr(C, name2)(mesh2)
+        c1 = q[tuple(rng.randrange(d) for d in q.ufl_shape)] if q.ufl_shape else q
+        c2 = q2[tuple(rng.randrange(d) for d in q2.ufl_shape)] if q2.ufl_shape else q2
+        pair = [(c1, mesh, gdim, name), (c2, mesh2, gdim2, name2)]
+        if rng.random() < 0.5:
+            pair.reverse()
+        e = ufl.as_vector([pair[0][0], pair[1][0]])
+    except Exception:
+        ctx.count("build_rejected")
+        return
+    try:
+        out = apply_geometry_lowering(e)
+    except Exception as ex:
+        ctx.count("rejected")
+        ctx.covered("rejected_with", type(ex).__name__)
+        return
+    if type(out).__name__ != "ListTensor" or len(out.ufl_operands) != 2:
+        ctx.count("two_mesh_output_not_a_list")
+        return
+    ok = True
+    for k, (ck, mk, gk, nk) in enumerate(pair):
+        try:
+            worlds = [oracle.World(rng, cell, gk, itype, False) for _ in range(3)]
+        except Exception:
+            ctx.count("world_unsupported")
+            return
+        for w in worlds:
+            w.mesh = mk
+        verdict, _ = check_pass(ctx, "C07", "apply_geometry_lowering", ck, lambda x, k=k: out.ufl_operands[k], worlds, localise=False,
+                                key_override="two-meshes/" + nk + ("/manifold" if gk > tdim else ""))
+        ok = ok and verdict == "held"
+    if ok:
+        ctx.count("two_mesh_held")
+        ctx.add_distinct(("two-meshes", pair[0][3], pair[1][3], cell, pair[0][2], pair[1][2], itype))
 
 
 # ---- additional workload (thorough tier): the repository's own test-suite with this property's passes monitored
